@@ -4,7 +4,7 @@ CONSTANTS
   Dims = {22, 12, 21}
   CondKinds = {"Cond", "CondDiag", "CondId", "CondIdDiag"}
   PKinds = {"PDF:S", "DiagPDF:S"}
-  Ops = {"int_log_cond_y", "int_log_cond_y2"}
+  Ops = {"int_log_cond_y", "int_log_cond_y2", "defer"}
   Offs = {0}
 INIT Init
 NEXT Next
